@@ -137,6 +137,51 @@ fn main() {
         }
     }
     rep.bump_by("generated.grid", n_grid as u64);
+    // operators at the ends of the ranges (after a wave-8 seed: `a - b` computed as `a + (-b)` fails for
+    // b = -32768 although the difference fits): every ordered pair of boundary values of INTEGER / LONG, also
+    // mixed, under + - * and unary minus, operands in variables and as literals; one operation per program
+    // (an Overflow ends the run), several harmless operations first
+    {
+        let ints = ["-32768", "-32767", "-1", "0", "1", "32767"];
+        let longs = ["-2147483648", "-2147483647", "-32769", "-1", "1", "32768", "2147483647"];
+        let mut pairs: Vec<(String, String, &str, &str)> = vec![];
+        for a in ints {
+            for b in ints {
+                pairs.push((a.into(), b.into(), "%", "%"));
+            }
+            for b in longs {
+                pairs.push((a.into(), b.into(), "%", "&"));
+                pairs.push((b.into(), a.into(), "&", "%"));
+            }
+        }
+        for a in longs {
+            for b in longs {
+                pairs.push((a.into(), b.into(), "&", "&"));
+            }
+        }
+        let keep_1_in = if thorough { 1 } else { 4 };
+        let mut n_boundary = 0u64;
+        for (a, b, sa, sb) in pairs {
+            for op in ["+", "-", "*"] {
+                if rng.below(keep_1_in) != 0 {
+                    continue;
+                }
+                let text = if rng.chance(1, 2) {
+                    format!("A{sa} = {a}\nB{sb} = {b}\nPRINT \"go\"\nPRINT A{sa} {op} B{sb}\nC& = A{sa} {op} B{sb}\nPRINT C&; -A{sa}; -B{sb}\n")
+                } else {
+                    format!("A{sa} = {a}\nPRINT \"go\"\nPRINT A{sa} {op} ({b}); ({b}) {op} A{sa}\nPRINT -A{sa}\n")
+                };
+                match core_ast(&text) {
+                    Some(ast) => {
+                        cases.push(Case { text, ast, feats: "boundary-arith".into() });
+                        n_boundary += 1;
+                    }
+                    None => outside += 1,
+                }
+            }
+        }
+        rep.bump_by("generated.boundary-arith", n_boundary);
+    }
     rep.bump_by("generated.outside-core-or-rejected", outside);
     // every program runs once on the real implementation (in parallel threads), results are shared by the comparisons
     let t0 = std::time::Instant::now();
